@@ -209,8 +209,13 @@ func execC07(t *testing.T, sc *kernel.Scenario, trace bool) *kernel.Result {
 					}
 					return false
 				}
+				if kernel.Derive(uint64(st.Int("r")), "send-stalls")%2 == 0 {
+					// the acceptance is not refused at once: the connection stalls
+					// until the accepting side's context ends (a context error)
+					p.w.Bus.StallSendP = 1
+				}
 				o1 := p.pay(i, si.chans[0], 0, st.Int("amt"), time.Second, true)
-				p.w.Bus.FailSend, p.w.Bus.Tap = nil, prevTap
+				p.w.Bus.FailSend, p.w.Bus.Tap, p.w.Bus.StallSendP = nil, prevTap, 0
 				if o1.class == "ok" || !failed || first == nil {
 					continue // H's policy refused, or nothing to fail
 				}
